@@ -13,6 +13,7 @@ failing-input search and covers the constructs the validator does not).
 import json
 import os
 import re
+import time
 
 import faithful
 import k7
@@ -88,6 +89,26 @@ def known_class(ctx, ex, it):
             denying = [e for e in ex.dumps[it["m"]]["entries"].values() if e.get("kind") == "enum" and e.get("deny")]
             if denying and ("unknown field" in err or "did not match any variant" in err) and \
                     any(_mixed_closedness(u) for u in _unions(doc, s)):
+                return f
+        if cls == "type-name-reuse":
+            # an inline object property whose derived name collides with another type name of the document
+            def pas(x):
+                parts = re.split(r"[^0-9A-Za-z]+", x)
+                return "".join(q[:1].upper() + q[1:] for q in parts if q)
+            names = {}
+            def walk(name, sch, depth=0):
+                if not isinstance(sch, dict) or depth > 6:
+                    return
+                for pk, ps in (sch.get("properties") or {}).items():
+                    if isinstance(ps, dict) and ps.get("type") == "object" and "properties" in ps:
+                        n2 = name + pas(pk)
+                        names.setdefault(n2.lower(), []).append(("inline", n2))
+                        walk(n2, ps, depth + 1)
+            for dn, ds in doc["definitions"].items():
+                names.setdefault(pas(dn).lower(), []).append(("def", dn))
+                walk(pas(dn), ds)
+            if any(len(v) > 1 and any(k == "inline" for k, _ in v) for v in names.values()) and \
+                    ("missing field" in err or "unknown field" in err or "invalid type" in err):
                 return f
         if cls == "internal-document-read-as-adjacent":
             if ent.get("kind") == "enum" and ent.get("tag", {}).get("k") == "adjacent":
@@ -243,6 +264,30 @@ def run(ctx):
                        "(C02_covers_sound instantiated)" % n, ok, detail)
     except Exception as e:  # noqa
         ctx.oblige("validator evaluates on the dumped IRs", False, str(e)[-1500:])
+
+    # ---- the converter model (Algo/Convert.v): theorems for ALL schemas of its fragment, and its
+    #      tie K3: convert_doc D = the real dump, exactly, on every fragment document of the run
+    try:
+        import convert_check
+        thms_f = theorem_names(os.path.join(vlib.COQ, "theories", "Props", "C02F.v"), "C02F_")
+        if thms_f:
+            prop_saved = ctx.prop
+            ctx.prop = "C02F"
+            vlib.standard_coq_obligations(ctx, "Props.C02F", thms_f, vlib.STD_AXIOMS)
+            ctx.prop = prop_saved
+            t0 = time.time()
+            res = convert_check.run(n=60 if quick else 400, seed=ctx.seed, tag="c02_convert",
+                                    exhaustive_docs=not quick)
+            ctx.oblige("correspondence K3: Convert.convert_doc = real type space (exact term equality) on %d "
+                       "fragment documents" % res["in_frag"], not res["mismatches"] and res["in_frag"] > 0,
+                       json.dumps(res["mismatches"][:2], default=str)[:1500])
+            ctx.coverage["convert_fragment_documents"] = res["in_frag"]
+            ctx.coverage["convert_outside_fragment"] = res["out"]
+            ctx.evaluations += res["in_frag"]
+        else:
+            ctx.oblige("Props/C02F.v present", False, "fragment theorem file missing")
+    except Exception as e:  # noqa
+        ctx.oblige("converter model correspondence K3 evaluates", False, str(e)[-1500:])
 
     # ---- verdict
     unlisted = []
